@@ -338,6 +338,9 @@ func randomMain(args []string) {
 			x["errtext"] = o.ErrText
 			x["crashtail"] = o.CrashTail
 		}
+		if cs.Toks == nil {
+			cs.Toks = []string{} // (edits may delete every token: an empty line, not a null for the trace judge)
+		}
 		rec := traceRec{K: cs.Kind, T: cs.Toks, X: x,
 			O: traceOut{Ret: o.Returned || o.Crashed && o.CrashWhy != "time-limit", Crash: o.Crashed && o.CrashWhy != "time-limit",
 				Panic: o.Panic, AccPanic: len(o.AccPanic) > 0, Err: o.Err, Status: status}}
